@@ -250,6 +250,18 @@ def _first_cause_cases(tier):
                 yield {"kind": "graceful_then_fatal", "stage": stage, "base": b, "f1": {"do": "reset", "at": t1}}
 
 
+def _disconnect_during_hung_connect_cases():
+    """disconnect() while the connect is hung (device silent): after its 5 s wait the disconnect records the first
+    fatal cause itself (a timeout) and goes on to the DisconnectRequest exchange (<= 10 s); whatever fails in
+    that window comes second."""
+    for noise in (False, True):
+        for login in (True, False):
+            b = {"noise": noise, "login": login, "flow": "connect", "auto": False, "K": 8.0, "final_at": 200.0}
+            for d in (5.25, 7, 12, 14.9):
+                for x in ({"do": "eof"}, {"do": "reset"}, {"do": "chunk", "frames": ["garbage"]}, {"do": "writefail_raise"}, {"do": "force"}):
+                    yield {"kind": "first_cause", "stage": "disconnect-during-hung-connect", "base": b, "f1": {"do": "disconnect", "at": 300}, "f2": [{**x, "at": 300 + int(256 * d)}]}
+
+
 @st.composite
 def _first_cause_random(draw, tier):
     noise = draw(st.booleans())
@@ -289,8 +301,22 @@ def _graceful_then_fatal_random(draw, tier):
     return {"kind": "graceful_then_fatal", "stage": "random", "base": c["base"], "f1": f1}
 
 
+@st.composite
+def _reconnect_in_stop_callback(draw, tier):
+    """Established session ended by any cause; the stop callback reconnects at once (once or twice)."""
+    c = draw(life.case_strategy(tier, max_events=3, min_events=1))
+    c["tcp"] = "ok"
+    c["auto"] = True
+    c["on_stop_reconnect"] = draw(st.sampled_from([1, 1, 2]))
+    for ev in c["events"]:
+        if "at" in ev and ev["at"] < 40:
+            ev["at"] += draw(st.sampled_from([40, 400]))
+    return c
+
+
 def strategy(tier):
-    return st.one_of(life.case_strategy(tier), _net_case(tier), _silence_case(tier), _first_cause_random(tier), _graceful_then_fatal_random(tier))
+    return st.one_of(life.case_strategy(tier), _net_case(tier), _silence_case(tier), _first_cause_random(tier), _graceful_then_fatal_random(tier),
+                     _reconnect_in_stop_callback(tier))
 
 
 def _verdict_cases():
@@ -308,8 +334,19 @@ def _verdict_cases():
                 yield {"kind": "verdict_then_close", "what": what, "base": base, "then": then, "trailer": ["state"]}
 
 
+def _reconnect_cases():
+    for noise in (False, True):
+        for flow in ("connect", "full"):
+            for ev in ({"do": "disconnect"}, {"do": "force"}, {"do": "eof"}, {"do": "reset"}, {"do": "chunk", "frames": ["discreq"]}, {"do": "chunk", "frames": ["garbage"]}, {"do": "silence"}):
+                for at in (64, 400):
+                    for n in (1, 2):
+                        yield {"noise": noise, "login": True, "flow": flow, "K": 8.0, "final_at": 300.0, "on_stop_reconnect": n, "events": [{**ev, "at": at}]}
+
+
 def enumerated(tier):
+    yield from _reconnect_cases()
     yield from _first_cause_cases(tier)
+    yield from _disconnect_during_hung_connect_cases()
     yield from _verdict_cases()
     # resolver x TCP matrix for one and two addresses
     dns_opts = [["ok", ["10.1.0.1"], 2], ["ok", ["10.1.0.1", "fd00::9"], 1], ["empty", 1], ["error", 1], ["hang"]]
